@@ -24,6 +24,7 @@ func init() {
 			{ID: "C19.R6", Text: "a ping's answer is that ping's answer: NewHealthCheck wires the client it was given into the checker unchanged (no adapter between the round and Client.Ping)", Run: constructorWiring(wireHealth)},
 			{ID: "C19.R7", Text: "the checker runs ⇔ it is enabled, and is stopped by close: the client's start and close paths call by call: the stream is opened, the listener subscribed (failure fatal), each optional component started and stopped under exactly its configuration switch (polarity included), Commit is Stream.Save, SetMetadata installs the supplied store, newDcp applies the defaults first and returns every error", Run: clientWiring},
 			{ID: "C19.R8", Text: "nothing the checker starts outlives or blocks Stop: every background loop has a stop that the close path reaches (same rule as C13.R3)", Run: c13r3},
+			{ID: "C19.R9", Text: "the fifth failure terminates the process: no recover() anywhere in the module (same rule as C15.R23)", Run: neverRecovers},
 			{ID: "C19.R4", Text: "what counts as a failed ping: Client.Ping reports an error unless both the data and the management service answered (same rule as C20.R5)", Run: pingOutcome},
 			{ID: "C19.R3", Text: "Start/Stop entirely inside Once.Do; wg.Add(1) before go run; run defers wg.Done; Stop = cancel then wg.Wait; Once fields never reassigned", Run: c19r3},
 		},
